@@ -2,6 +2,7 @@ package props
 
 import (
 	"fmt"
+	"math"
 	"math/big"
 	"testing"
 
@@ -310,6 +311,48 @@ func TestC09Grid(t *testing.T) {
 		}
 		n++
 	}
+	// ... and, far beyond, the precisions at which p*log10(2) comes closest to an integer from either side (where a
+	// slightly different constant or a float rounding flips the ceiling): all p <= 2^27 within 2e-6 of an integer,
+	// and the continued-fraction (semi)convergent denominators of log10(2) up to big.Float's MaxPrec
+	var tight []uint64
+	for p := uint64(45000); p <= 1<<27; p++ {
+		f := float64(p) * 0.30102999566398119521
+		if d := f - math.Floor(f); d < 2e-6 || d > 1-2e-6 {
+			tight = append(tight, p)
+		}
+	}
+	{
+		// continued fraction of log10(2) = [0; 3, 3, 9, 2, 2, 4, 6, 2, 1, 1, 3, 1, 18, 1, 6, 1, 2, 1, 1, 4, 1, 42, ...]
+		cf := []uint64{3, 3, 9, 2, 2, 4, 6, 2, 1, 1, 3, 1, 18, 1, 6, 1, 2, 1, 1, 4, 1, 42}
+		q0, q1 := uint64(1), uint64(0) // q_{-1} = 0, q_0 = 1 with the usual shift
+		for _, a := range cf {
+			for j := uint64(1); j <= a; j++ {
+				if q := q1 + j*q0; q > 1<<27 && q <= math.MaxUint32 {
+					tight = append(tight, q, q-1, q+1)
+				}
+			}
+			q0, q1 = q1+a*q0, q0
+			if q0 > math.MaxUint32 {
+				break
+			}
+		}
+		tight = append(tight, math.MaxUint32, math.MaxUint32-1, 1<<31, 1<<31+1, 1<<31-1)
+	}
+	for _, p := range tight {
+		x := new(big.Float).SetPrec(uint(p)).SetInt64(3)
+		if uint64(x.Prec()) != p {
+			continue
+		}
+		z := new(decimal.Decimal).SetFloat(x)
+		prod := new(big.Rat).Mul(l2, new(big.Rat).SetInt(new(big.Int).SetUint64(p)))
+		want := new(big.Int).Quo(prod.Num(), prod.Denom()).Int64() + 1
+		if got := z.Prec(); int64(got) != want {
+			c := ProgCase{Prog: sm.Program{Init: []h.Spec{{F: "z"}}, Steps: []sm.Step{{Op: "setfloat", Z: 0, FK: "fin", F: 3, FP: uint(p)}}}}
+			h.ReportGridFail(t, "C09", h.Failf("prec0", "SetFloat of a %d-bit big.Float into a precision-0 receiver: precision %d, documented ceil(%d*log10 2) = %d", p, got, p, want), mustJSON(c))
+		}
+		n++
+	}
+	h.AddExtra("C09", "precision_rule_tight_cases", len(tight))
 	ten := big.NewInt(10)
 	v := big.NewInt(1)
 	for d := 1; d <= 400; d++ {
